@@ -267,6 +267,24 @@ def run(prop, tier, seed, t0):
                 k += 1
                 tasks.append(('vlib.props.c11', 'task_search', prop, seed * 1000 + k, 0, cb,
                               {'which': which, 'generations': 3 if q else 10, 'population': 32 if q else 96}))
+    if not q:
+        # Miri (undefined-behaviour / overflow interpreter) on a short operation history and a few scalar multiplications,
+        # serial 32-bit code and the AVX2 code (target feature forced so that the dispatcher selects it under Miri)
+        from . import sanitizers, c03
+        hist = c03.make(seed + 77, 0)
+        lines = []
+        for b in hist.blocks:
+            for r in b:
+                if r.op in ('ed.add', 'ed.sub', 'ed.dbl', 'ed.neg', 'ed.decompress', 'ed.mulcof', 'ed.id', 'ed.eq', 'ed.preds', 'ed.cswap', 'ed.cneg'):
+                    lines.append(r.line())
+        lines = lines[:160] + ['mm1 ed.mul B c0500000000000000000000000000000000000000000000000000000000000000',
+                               'mm2 ed.mulbase cf4ffffffffffffffffffffffffffffff00000000000000000000000000000000',
+                               'mm3 ed.msm [c0500000000000000000000000000000000000000000000000000000000000000;c0700000000000000000000000000000000000000000000000000000000000000] [B;T1]',
+                               'mm4 x.x25519 ' + 'a5' * 32 + ' ' + '09' + '00' * 31,
+                               'mm5 rs.uniform ' + '3c' * 64]
+        lines = [l for l in lines if '$' not in l or True]
+        tasks.append(('vlib.props.sanitizers', 'task_miri', prop, seed, 0, [], {'be': 'serial32', 'lines': lines}))
+        tasks.append(('vlib.props.sanitizers', 'task_miri', prop, seed, 0, [], {'be': 'simd', 'lines': lines, 'target_feature': '+avx2'}))
     m = core.run_tasks(tasks)
     return core.finish(prop, tier, seed, t0, m,
                        rule='(1) the public-API request streams of C02-C09/C13/C16/C17, the raw-limb field workload of C01 and '
